@@ -34,11 +34,13 @@ def strategy():
     @st.composite
     def node(draw, depth, mid_factory):
         n = {'mode': draw(st.sampled_from(list(U.MODES))), 'res': draw(st.lists(st.sampled_from(RES), max_size=2, unique=True)) if depth == 0 else [],
-             'mws': draw(st.lists(st.integers(0, 4), max_size=3, unique=True)), 'handler': draw(st.sampled_from(['default', 'default', 'teapot', 'debug'])),
+             'mws': draw(st.lists(st.integers(0, 4), max_size=3, unique=True)), 'handler': 'default',
              'factory': draw(st.booleans()) and True, 'items': []}
         if depth > 0:
             # an inner level may define a name only if no other inner level on this path does; sharing with the root is fine
             n['res'] = draw(st.lists(st.sampled_from(RES + ['i%d' % depth]), max_size=2, unique=True))
+        # an error handler whose render_error reads a resource can only sit on an application that defines it
+        n['handler'] = draw(st.sampled_from(['default', 'default', 'teapot', 'debug'] + (['echo-r1', 'echo-r1'] if 'r1' in n['res'] else [])))
         nitems = draw(st.integers(1, 3))
         for _ in range(nitems):
             if depth < 2 and draw(st.integers(0, 9)) < (5 if depth == 0 else 3):
@@ -93,6 +95,11 @@ def handler(kind):
             def render_error(self, request, _error):
                 return errors.ImATeapot('teapot for %s' % _error.code)
         return Teapot()
+    if kind == 'echo-r1':
+        class EchoRes(ErrorHandler):
+            def render_error(self, request, _error, r1):
+                return errors.ImATeapot('error %s rendered with r1=%s' % (_error.code, r1))
+        return EchoRes()
     if kind == 'debug':
         return ContextualErrorHandler()
     return None
@@ -216,10 +223,12 @@ class Builder(object):
         # the outermost application's own list stays application-level (it also serves the catch-all route);
         # what the harness merged in from inner levels is declared on the route
         nroot = len(root['mws'])
-        app = Application(resources={}, slash_mode=root['mode'], error_handler=handler(root['handler']),
+        root_res = dict((n_, self.value('L', n_)) for n_ in root['res'])
+        app = Application(resources=root_res, slash_mode=root['mode'], error_handler=handler(root['handler']),
                           middlewares=[mw_obj(t) for t in root['mws']])
         for pattern, ep, render, methods, mode, merged, res in routes:
             assert [m['tid'] for m in merged[:nroot]] == list(root['mws'])
+            res = dict((k_, v_) for k_, v_ in res.items() if k_ not in root_res)     # the outermost application's own stay on it
             r = Route(pattern, ep, render, methods=methods, slash_mode=mode, resources=res,
                       middlewares=[mw_obj(m['tid']) for m in merged[nroot:]])
             app.add(r, inherit_slashes=False)
